@@ -52,6 +52,9 @@ class LocalityObserver:
         if ev["exc"] is not None or before is None or after is None:
             return
         name = ev["name"]
+        if name == "_Delete":
+            self.on_delete(ev, before, after)
+            return
         if name not in UNITARY and name not in CHANNELS and name not in PREPS:
             return
         n = after.n
@@ -104,6 +107,8 @@ class LocalityObserver:
                     name, tg, d, lab), self.case, detail)
         else:
             rep.monitor("spectators:" + lab)
+            if after.pure and before.pure:
+                rep.monitor("spectators:fock(ket representation)")
             rb = before.reduced_matrix(sp) / max(before.trace, 1e-300)
             ra = after.reduced_matrix(sp) / max(after.trace, 1e-300)
             d = np.max(np.abs(ra - rb))
@@ -152,6 +157,33 @@ class LocalityObserver:
                     if dd > 1e-9:
                         rep.violation(locus, "prep-still-correlated", "%s on %s: state is not a product of target and rest "
                                       "(max deviation %.3e, %s)" % (name, tg, dd, lab), self.case, detail)
+
+
+    def on_delete(self, ev, before, after):
+        """Mode deletion (first deletion of a run: labels == positions) leaves the rest as it was."""
+        rep = self.rep
+        lab = self.lab()
+        tg = ev["modes"]
+        nb = before.n
+        kept = [m for m in range(nb) if m not in tg]
+        if after.n != len(kept) or not kept:
+            return
+        rep.monitor("delete:" + lab)
+        locus = "%s.Del" % self.conf["backend"]
+        detail = {"event": ev["seq"], "modes": tg, "conf": self.conf}
+        if after.kind in ("gaussian", "bosonic"):
+            ki = idx(nb, kept)
+            d = max(np.max(np.abs(np.real(after.mu) - np.real(before.mu)[ki])),
+                    np.max(np.abs(np.real(after.V) - np.real(before.V)[np.ix_(ki, ki)])))
+            tol = 1e-10 * (1 + np.max(np.abs(before.V)))
+        else:
+            rb = before.reduced_matrix(kept) / max(before.trace, 1e-300)
+            ra = after.reduced_matrix(list(range(after.n))) / max(after.trace, 1e-300)
+            d = np.max(np.abs(ra - rb))
+            tol = 1e-9
+        if d > tol:
+            rep.violation(locus, "rest-changed", "deleting modes %s changed the state of the remaining modes by %.3e (%s)" % (
+                tg, d, lab), self.case, detail)
 
 
 class PhysicalityObserver:
@@ -212,6 +244,8 @@ class PhysicalityObserver:
                         return False
             return True
         rep.monitor("physical:" + lab)
+        if snap.pure:
+            rep.monitor("physical:fock(ket representation)")
         M = snap.reduced_matrix(list(range(n)))
         herm = np.max(np.abs(M - M.conj().T))
         if herm > 1e-10:
